@@ -2,6 +2,8 @@
 package main
 
 import (
+	"os"
+
 	"verif/core"
 	"verif/e2/check"
 	"verif/e2/families"
@@ -17,7 +19,7 @@ func run(c *core.Ctx) {
 	c.Assume("the wire is in-memory: http.Request.Write -> http.ReadRequest -> goa muxer on an httptest recorder (exact net/http serialisation and parsing, no sockets)")
 	fams := []check.Family{families.PayloadSingle(), families.PayloadPair(c.Thorough()), families.Features(), families.CrossService(), families.DeepPayloadShapes(c.Thorough())}
 	c.Rule("deep type structure (JSON bodies): " + spec.DeepShapesDoc + "; values: union = every candidate of every alternative; collections = empty, one, two, three elements and one element per distinct violated-rule set; objects nested up to 6 levels")
-	if families.OnlyStreams(c) {
+	if families.OnlyStreams(c) || families.OnlySequences(c) {
 		fams = nil
 	}
 	for _, f := range fams {
@@ -29,6 +31,11 @@ func run(c *core.Ctx) {
 		if err := check.RunMode(c, corpus, "C02"); err != nil {
 			c.HarnessError("%s: %v", f.Name, err)
 		}
+	}
+	// both tiers: operation sequences on one client object and one mounted server, request side
+	// (driver mode C02Q, e2/drv/opseq.go)
+	if os.Getenv("VERIF_ONLY_STREAMS") == "" {
+		families.RunSequences(c, "C02Q")
 	}
 	// thorough tier: HTTP (WebSocket) streaming endpoints, initial payload and streamed requests
 	// (driver mode C02S, e2/drv/c02stream.go)
